@@ -216,6 +216,11 @@ CHECKS["C02"] = {
          "gen_stubs": [{"pkgpath": "github.com/ProtonMail/gluon/connector", "iface": "Connector", "type": "verifConnBase"}],
          "params": {"quick": grid(k=[1, 2, 3]), "thorough": grid(k=[3, 4])},
          "cover": ["mailboxes-updated", "flags-updated", "deleted"]},
+        {"name": "session", "pkg": "internal/session", "pkgname": "session", "entry": "VerifC01Session", "files": ["zz_verif_c18.go", "zz_verif_c18b.go", "zz_verif_c01.go"],
+         "with": ["state_export", "backend_export", "verifdb"],
+         "extra_overlay": {"internal/response/zz_verif_decode.go": "internal/response/zz_verif_decode.go"},
+         "params": {"quick": grid(k=[3]), "thorough": grid(k=[4])},
+         "cover": ["own-store", "update-delivered"]},
     ],
     "stubs": ["internal/verifdb relational model", "state.Connector stub (no remote updates)", "state.UserInterface stub: FIFO, loss-free per-state update queue (async.QueuedChannel is goroutine based: outside)"],
     "outside": ["the goroutine-backed queue between writer and session", "histories longer than k events", "more than two sessions"],
